@@ -11,18 +11,19 @@
    cannot produce under that schedule is reported as a mismatch. For small
    scenarios the check additionally explores EVERY schedule of the machine
    ([all_outcomes], with fuel) and requires the observation to be among the
-   outcomes found. Definitions only. *)
+   outcomes found. A function that panics or calls runtime.Goexit is the
+   model's aborting function: its caller produces no result. Definitions only. *)
 From Typ Require Export Lib.Base Sync.Once.
 
 Record case := Case {
   c_arity : Z;                              (* 1, 2 or 3 *)
-  c_progs : list (list (Z * list Z));       (* per goroutine: its Do calls as (user steps, result tuple) *)
+  c_progs : list (list (Z * list Z * bool)); (* per goroutine: its Do calls as (user steps, result tuple, the function panics / calls Goexit instead of returning) *)
   c_ran : list (Z * Z);                     (* observed: (goroutine, call index) of every function that was invoked *)
   c_rets : list (list (list Z));            (* observed: per goroutine, the tuples its calls returned *)
   c_early : Z                               (* observed: calls that had returned while the invoked function was still running *)
 }.
 
-Definition zfun (p : Z * list Z) : ufun Z := UFun (Z.to_nat (fst p)) (snd p).
+Definition zfun (p : Z * list Z * bool) : ufun Z := UFun (Z.to_nat (fst (fst p))) (snd (fst p)) (snd p).
 
 Definition budget (arity : nat) (p : list (ufun Z)) : nat :=
   fold_left (fun acc f => acc + f_steps f + 2 * arity + 5) p 0.
@@ -46,12 +47,12 @@ Fixpoint ran_of (tr : list (event Z)) : list (Z * Z) :=
 Definition count_ret (tr : list (event Z)) : nat :=
   length (filter (fun e => match e with ERet _ _ => true | _ => false end) tr).
 
-(* responses older than the completion of the invoked function (all of them if it never completed) *)
+(* responses older than the end (return, panic or Goexit) of the invoked function (all of them if it never ended) *)
 Fixpoint early_of (tr : list (event Z)) : nat :=
   match tr with
   | [] => 0
-  | EFin _ _ :: older => count_ret older
-  | ERet _ _ :: older => if existsb (fun e => match e with EFin _ _ => true | _ => false end) older
+  | EFin _ _ :: older | EAbort _ :: older => count_ret older
+  | ERet _ _ :: older => if existsb (fun e => match e with EFin _ _ | EAbort _ => true | _ => false end) older
                          then early_of older else S (early_of older)
   | _ :: older => early_of older
   end.
@@ -62,7 +63,7 @@ Definition outcome_of (c : config Z) : outcome :=
   (ran_of (c_trace c), map (@th_rets Z) (c_threads c), Z.of_nat (early_of (c_trace c))).
 
 Definition all_finished (c : config Z) : bool :=
-  forallb (fun th => match th_pc th, th_prog th with PIdle, [] => true | _, _ => false end) (c_threads c).
+  forallb (fun th => match th_pc th, th_prog th with PIdle, [] => true | PDead, _ => true | _, _ => false end) (c_threads c).
 
 Definition tuple_eqb := list_eqb Z.eqb.
 Definition outcome_eqb (a b : outcome) : bool :=
